@@ -28,10 +28,7 @@ func reregOne(c *vf.Ctx, seed int64, batch, iter int, race bool) {
 	viol := func(fp, what string) { c.Violation(fp, what, rep) }
 	it := &stressIter{}
 	d := daemon.New()
-	pool := make([]int, 1+rng.Intn(3))
-	for i := range pool {
-		pool[i] = orderBase[rng.Intn(len(orderBase))]
-	}
+	pool := genPool(rng, 1+rng.Intn(3))
 	newW := func(name, kind string) *swk {
 		return &swk{it: it, name: name, kind: kind, order: pool[rng.Intn(len(pool))], jit: rng.Intn(6), early: make(chan struct{})}
 	}
